@@ -237,8 +237,16 @@ func (p *nodeInterp) LoadExpr(node ast.Node) string {
 	if f == nil {
 		return ""
 	}
-	n := int(node.End() - start)
-	return string(f.Code[pos.Offset : pos.Offset+n])
+	// a node of a partial AST (source with parse errors, e.g. a call without its closing
+	// parenthesis at the end of the file) may end past the end of the file
+	end := pos.Offset + int(node.End()-start)
+	if end > len(f.Code) {
+		end = len(f.Code)
+	}
+	if end < pos.Offset {
+		return ""
+	}
+	return string(f.Code[pos.Offset:end])
 }
 
 type loader interface {
